@@ -156,24 +156,26 @@ fn word_sequences<L: Tab>(run: &Run, st: bool, n: usize) {
     let nw = crate::model::tt::nwords(n);
     let a = crate::engine::mix(run.seed ^ 0xC07A) & !1;
     let b = crate::engine::mix(run.seed ^ 0xC07B) | 1;
-    let words = [a, b, !a];
-    let ntab = 3u64.pow(nw as u32);
+    // n = 7, 8: six words (constants, a, b and their complements); n = 9: four in quick, six in thorough
+    let words: Vec<u64> = if n <= 8 || run.thorough() { vec![0, !0, a, !a, b, !b] } else { vec![0, !0, a, b] };
+    let nl = words.len() as u64;
+    let ntab = nl.pow(nw as u32);
     let table = |mut k: u64| -> TT {
         let mut w = Vec::with_capacity(nw);
         for _ in 0..nw {
-            w.push(words[(k % 3) as usize]);
-            k /= 3;
+            w.push(words[(k % nl) as usize]);
+            k /= nl;
         }
         TT { n, w }
     };
     let (total, what) = if n == 7 {
-        (ntab * ntab * ntab, "all ordered 3-lists of the 9 word-sequence tables, plus singles and pairs")
+        (ntab * ntab * ntab, "all ordered 3-lists of the 36 word-sequence tables, plus singles and pairs")
     } else if n == 8 {
-        (ntab * ntab, "all ordered pairs of the 81 word-sequence tables, plus singles and (t,u,t) sandwiches")
+        (ntab * ntab, "all ordered pairs of the 1296 word-sequence tables, plus singles and (t,u,t) sandwiches")
     } else {
-        (ntab, "all 6561 word-sequence tables as single functions, plus (t,u,t) sandwiches")
+        (ntab, "all word-sequence tables (4^8 quick / 6^8 thorough) as single functions, plus (t,u,t) sandwiches")
     };
-    run.section(&format!("WORDSEQ n={} {}: tables over the word alphabet {{a, b, !a}}", n, L::tname(n)), false, what, total, 16, |r, l| {
+    run.section(&format!("WORDSEQ n={} {}: tables over the word alphabet {{0, !0, a, !a, b, !b}}", n, L::tname(n)), false, what, total, 16, |r, l| {
         for idx in r {
             if n == 7 {
                 let (x, y, z) = (idx / (ntab * ntab), (idx / ntab) % ntab, idx % ntab);
